@@ -130,6 +130,10 @@ def run(chk):
     br = as_freq_branches(chk)
     if br.get("instantaneous", {}).get("value") != "mean":
         r1.require(False, "as_freq|instantaneous=mean", "data_processor_utilities.py", f"as_freq's instantaneous branch must aggregate with mean; found {br.get('instantaneous')}")
+    # the temperature branch of as_freq, interpreted and compared with its reference term (rules/asfreq_absint.py): readings carried forward on
+    # the atomic grid (every atomic step, however long the gap in rows), averaged per day, coverage = atoms present / atoms in the day
+    from rules.asfreq_absint import check as check_as_freq
+    check_as_freq(chk, r1, r1, kinds=("instantaneous",))
     d = chk.repo.func(DAILY_DATA, "_DailyData._compute_temperature_features")
     b = chk.repo.func(BILLING_DATA, "_BillingData._compute_temperature_features")
     sd = _analyse_sibling(chk, r1, r2, r3, d, br)
